@@ -60,7 +60,7 @@ SHAPES = ['dense', 'dense', 'dense', 'lec_gt_students', 'one_lecturer',
 
 
 def make_spec(rng, na=None, max_s=4, max_p=4, max_l=4, shape=None,
-              allow_empty_lists=True, min_s=1):
+              allow_empty_lists=True, min_s=1, max_list=None):
     """Random small instance, biased by *shape* towards hostile structure."""
     if na is None:
         na = rng.choice([2, 3])
@@ -111,7 +111,7 @@ def make_spec(rng, na=None, max_s=4, max_p=4, max_l=4, shape=None,
             st.append(random_groups(rng, projs, _tie_mode(rng, shape)))
             continue
         else:
-            k = rng.randint(1, np_)
+            k = rng.randint(1, np_ if max_list is None else min(np_, max_list))
             if allow_empty_lists and rng.random() < 0.06:
                 k = 0
         projs = rng.sample(range(1, np_ + 1), k)
